@@ -16,7 +16,7 @@ import vlib
 def _options():
     opts = []
     for levels in (None, [], [2], [1, 3]):
-        for mk in (0, 1, 2):          # no matches / function / regex
+        for mk in (0, 1, 2, 3, 4, 5):          # no matches / function / regex / regex matching only through the default flags / flags=0 x2
             for flat in (False, True):
                 for lead in (None, False, True):
                     for ih in (True, False):
@@ -61,11 +61,23 @@ def _items_of(code):
 
 
 def _matches_arg(mk):
+    """keyword arguments: matches (and flags when given)"""
     if mk == 0:
-        return None
+        return {"matches": None}
     if mk == 1:
-        return lambda title: str(title) == "a"
-    return r"^a$"
+        return {"matches": lambda title: str(title) == "a"}
+    if mk == 2:
+        return {"matches": r"^a$"}
+    if mk == 3:
+        return {"matches": r"^A$"}                 # the default flags ignore case
+    if mk == 4:
+        return {"matches": r"^A$", "flags": 0}     # an explicit 0 does not
+    return {"matches": r"^a$", "flags": 0}
+
+
+def _title_ok(mk, is_a):
+    """does a heading titled 'a' (is_a) / 'b' pass the matches filter number mk"""
+    return bool(is_a) and mk != 4
 
 
 def _expected(nodes, levels, mk, flat, lead, ih):
@@ -77,7 +89,7 @@ def _expected(nodes, levels, mk, flat, lead, ih):
     if want_lead:
         res.append((0, heads[0][0] if heads else len(nodes)))
     for i, h in heads:
-        if mk and str(h.title) != "a":
+        if mk and not _title_ok(mk, str(h.title) == "a"):
             continue
         if levels and h.level not in levels:
             continue
@@ -96,7 +108,7 @@ def _encode(items, opt):
     il = 0 if lead is None else (2 if lead else 1)
     flat_items = []
     for lvl, m in items:
-        flat_items += [lvl, m]
+        flat_items += [lvl, 1 if (lvl and _title_ok(mk, m)) else 0]
     return " ".join(map(str, [len(lv)] + lv + [1 if mk else 0, int(flat), il, int(ih), len(items)] + flat_items))
 
 
@@ -107,8 +119,7 @@ def _run_impl(code, opt):
     if levels is not None:
         kind = (len(code.nodes) + mk + int(flat)) % 4
         lv = [levels, tuple(levels), iter(levels), (x for x in levels)][kind]
-    secs = code.get_sections(levels=lv, matches=_matches_arg(mk), flat=flat,
-                             include_lead=lead, include_headings=ih)
+    secs = code.get_sections(levels=lv, flat=flat, include_lead=lead, include_headings=ih, **_matches_arg(mk))
     views = []
     for s in secs:
         si = getattr(s.nodes, "_sliceinfo", None)
@@ -228,7 +239,7 @@ def run(tier, seed):
     c.cov["distinct_nontrivial"] = len(seen)
     c.notes["exhaustive_part"] = "all pages up to the stated length"
     c.cov["rule"] = ("pages: every sequence over {other, heading level 1-3 x title matches/doesn't} of length <= %d, "
-                     "random sequences with levels 1-6 up to length %d, parsed random wikitext; each x 144 option combinations "
+                     "random sequences with levels 1-6 up to length %d, parsed random wikitext; each x 288 option combinations (matches: none, function, regex, a regex that matches only through the default IGNORECASE flag, and the same two with flags=0) "
                      "(levels in None/[]/[2]/[1,3], matches none/function/regex, flat, include_lead None/F/T, include_headings); "
                      "non-trivial = page has headings of >= 2 different levels; distinct by (page, options)"
                      % (3 if tier == "quick" else 5, 24 if tier == "quick" else 40))
